@@ -347,6 +347,12 @@ fn check(rep: &Report, var: Var, kind: Kind, pats: &[Vec<u8>], s: &Searcher, h: 
         let gi = catch_unwind(AssertUnwindSafe(|| s.find_iter(h).map(cv).collect::<Vec<M>>()));
         ok = matches!(&gi, Ok(g) if *g == wi);
         what = format!("find_iter expected {:?}, got {:?}", wi, gi);
+        if ok && wi.len() <= 5 && h.len() % 3 == 0 {
+            if let Ok(Err(why)) = catch_unwind(AssertUnwindSafe(|| crate::gen::iter_protocol(&|| s.find_iter(h), &cv, &wi))) {
+                ok = false;
+                what = format!("find_iter: Iterator protocol: {}", why);
+            }
+        }
     }
     rep.case(want.is_some());
     if !ok {
